@@ -102,6 +102,7 @@ PROPS = {
         'level': 'proof',
         'units': [
             {'engine': 'verus', 'name': 'start_next', 'tier': 'quick', 'role': 'a pulled watermark that advances the frontier is forwarded at once; no silent frontier progress (KNOWN-FINDING on the FlushAndRestart arm)'},
+            {'engine': 'kani', 'name': 'frontier', 'tier': 'quick', 'bounded': True, 'role': 'WatermarkFrontier::update returns Some(new minimum) whenever the minimum increased (O1)'},
         ],
         'explanation': 'Start::next returns Watermark(new frontier) immediately when a pulled watermark advances the frontier (O2) and never lets the frontier advance silently; '
                        'the obligation fails on the FlushAndRestart arm (update(sender, MAX) result discarded) which is the recorded known finding F1.',
@@ -115,6 +116,7 @@ PROPS = {
             {'engine': 'verus', 'name': 'zip', 'tier': 'quick', 'role': 'Zip::next: a pair carries the max of the two timestamps'},
             {'engine': 'verus', 'name': 'event_time_v', 'tier': 'quick', 'exclude_obligations': ['process.early_element_not_dropped'], 'role': 'EventTimeWindowManager::process: after Watermark(w) no window that can still fire has end <= w'},
             {'engine': 'verus', 'name': 'fold', 'tier': 'quick', 'role': 'Fold::next: watermark held back until the result (stamped with the max timestamp) is out'},
+            {'engine': 'kani', 'name': 'frontier', 'tier': 'quick', 'bounded': True, 'role': 'WatermarkFrontier::{new,update,reset}, opt_join: front = min of entries, returns the new frontier iff it changed (2 upstream replicas)'},
         ],
         'explanation': 'per-operator watermark contracts proved on the real next() functions (Verus, unbounded) plus the frontier / event-time window contracts (Kani single-call harnesses, bounded state size).',
         'assumptions': ['W_in: the operator input respects the watermark contract', 'Fold/KeyedFold/FlatMap/AddTimestamp/WindowOperator wiring: see unit list'],
@@ -139,5 +141,24 @@ PROPS = {
         'explanation': 'Verus proof on the real Fold::next that each iteration yields exactly the sequential left fold of its items (user closure = assumed function), plus a pure lemma that the '
                        'two-phase (local pre-aggregation, then global) form equals the sequential fold for every partition of the input, empty partitions included.',
         'assumptions': ['KeyedFold::next (hash-map entry API, drain/map/extend) is NOT under contract: outside the Verus subset and intractable for CBMC here', 'keyed rich_map state not covered'],
+    },
+    'C14': {
+        'level': 'proof',
+        'units': [
+            {'engine': 'verus', 'name': 'session_v', 'tier': 'quick', 'role': 'SessionWindowManager::process: every item in exactly one session, sessions emitted whole and once, flushed at iteration end'},
+            {'engine': 'verus', 'name': 'processing_time_v', 'tier': 'quick', 'role': 'ProcessingTimeWindowManager::process: item in every window covering now (>=1, <= ceil(size/slide)), closed windows emitted once in order, all flushed at iteration end'},
+        ],
+        'explanation': 'Verus proofs on the extracted process functions with the clock modelled as an arbitrary value (every timing explored): conservation of elements for session and '
+                       'processing-time windows, unbounded in the number of open windows.',
+        'assumptions': ['R-CLOCK integer model of Instant/Duration; clock monotone w.r.t. the first open window'],
+    },
+    'C19': {
+        'level': 'proof',
+        'units': [
+            {'engine': 'verus', 'name': 'replication', 'tier': 'quick', 'role': 'Replication::{clamp,intersect}, DemuxCoord::{new,includes_channel}, From impls'},
+        ],
+        'explanation': 'NARROW claim: only the placement arithmetic (clamp = min(limit, available), intersect = more restrictive requirement) and the demultiplexer coordinate of a link are proved (Verus). '
+                       'Scheduler::{local,remote}_block_info, build_execution_graph and NetworkTopology::build iterate over hash maps with iterator adapters and macros: outside the Verus subset, intractable for CBMC here.',
+        'assumptions': ['placement loops, forward wiring (finding F4: a producer replica without same-index consumer gets no consumer) and port assignment are NOT under contract'],
     },
 }
